@@ -1,9 +1,25 @@
 """C08 — NSTART bounds in-flight Confirmables; held messages go out in order, none lost (DESIGN.md §4 C08, design/C08.md)."""
 from vlib import common as C, msglib as L
 
+MANIFEST = {
+    "text": "Lean theorems about the transcription M of coap_send_pdu's gate, coap_session_delay_pdu, coap_session_connected, "
+            "coap_session_disconnected_lkd and every con_active update, for EVERY event sequence (arbitrary ACK/RST/NON/invalid-code "
+            "arrivals incl. duplicates, retransmissions, sessions leaving and re-entering ESTABLISHED, failures): con_active_eq_inflight, "
+            "inflight_le_nstart (wf_step: inductive invariant), held_fifo_exactly_once (the delay queue only changes by append-at-end "
+            "without transmission, head-leaves-exactly-when-transmitted, or clear-with-one-NACK-per-held-CON; lifted to runs), "
+            "failure_nacks_each_held_once, non_not_delayed_by_nstart.  M is tied to the compiled code on every run by exact trace equality "
+            "on the virtual-time simulation harness (first-transmission order, con_active / delay-queue / send-queue after every event, "
+            "NACK log) over bursts of 1..20 CON/NON, NSTART 1..4, lost/duplicated/late ACK and RST.",
+    "note": "Trusted: Lean kernel (+ propext, Classical.choice, Quot.sound), harness/sim_core.h + msg.c, Driver/Msg.lean, generators/oracles, "
+            "the hand transcription M (checked on the cases run only).  NSTART <= 255 (con_active is a uint8_t).  'Not established' is "
+            "produced on UDP sessions by setting session->state as a DTLS handshake would.  The double NACK of the first IN-FLIGHT message "
+            "on disconnect (DESIGN §5 row 22) is modelled as is: the property's failure clause concerns held messages.",
+    "design_ref": "DESIGN.md §4 C08, design/C08.md",
+}
 LEAN_MODULES = ["CoapVerif.Props.C08"]
 NAMESPACE = "Coap.C08"
-REQUIRED_THEOREMS = ["con_active_eq_inflight", "inflight_le_nstart", "non_not_delayed_by_nstart",
+REQUIRED_THEOREMS = ["wf_step", "con_active_eq_inflight", "inflight_le_nstart", "non_not_delayed_by_nstart",
+                     "drain_fifo_exactly_once", "submit_held_appends", "held_fifo_exactly_once", "held_fifo_exactly_once_run",
                      "failure_nacks_each_held_once"]
 RULE = ("scenario lines for harness/msg.c: bursts of 1..20 CON/NON on 1-3 UDP client sessions of one context, NSTART 1..4, "
         "scripted peer answering each transmission by ACK / RST / nothing, once or twice, after delays placed around the "
@@ -42,7 +58,7 @@ def bursts(rng):
 
 def generate(ctx, escalate=False):
     rng = ctx.rng
-    n = 200000 if ctx.thorough() else 3000
+    n = 200000 if ctx.thorough() else 5000
     if escalate:
         n *= 3
     out = bursts(rng)
